@@ -205,26 +205,35 @@ let oracles : Detect.oracles = {
 }
 
 (* ---------- Cd model: its three oracles are queries ---------- *)
+let flags_cache : (int, BinNums.coq_N) Hashtbl.t = Hashtbl.create 4096
+let md_flags (cp : BinNums.coq_N) : BinNums.coq_N =
+  let k = int_of_n cp in
+  match Hashtbl.find_opt flags_cache k with
+  | Some v -> v
+  | None -> let v = n_of_int (int_of_string (ask ("Q FLAGS " ^ string_of_int k))) in Hashtbl.add flags_cache k v; v
+
 let cd_oracles : Cd.cd_oracles = {
   Cd.layers = (fun t ->
       let a = ask ("Q LAYERS " ^ hex_of_string (utf8_of_text t)) in
       if a = "-" then [] else SL.map (fun h -> text_of_utf8 (string_of_hex h)) (SS.split_on_char ';' a));
   Cd.alphabet_langs = (fun popular inl ->
-      parse_langs (ask ("Q ALPH " ^ hex_of_string (utf8_of_text popular) ^ " " ^ (if inl then "1" else "0"))));
+      let answer = parse_langs (ask ("Q ALPH " ^ hex_of_string (utf8_of_text popular) ^ " " ^ (if inl then "1" else "0"))) in
+      (* the order among equal ratios comes from sort_unstable_by and is not modelled: the answer is validated against the
+         candidate set and ratios the model computes (Model/Alph.v) *)
+      if not (Alph.alph_check32 (fun cp -> md_flags cp) popular inl answer) then begin
+        print_string ("V AlphOK chars=" ^ hex_of_string (utf8_of_text popular) ^ " ignore_non_latin=" ^ (if inl then "1" else "0")
+                      ^ " answer=" ^ SS.concat "," (SL.map ocaml_string answer) ^ "\n"); flush stdout
+      end;
+      answer);
   (* cd::characters_popularity_compare: computed by the model itself (strsim::jaro in binary64, then `as f32`:
      Model/Jaro.v, Model/Jaro32.v); the cd level also compares it directly with the library *)
   Cd.popularity = (fun l popular -> Obj.magic (Jaro32.popularity32 l popular));
 }
 
 (* ---------- mess detector oracles (per-character, memoised: the answers are functions of the code point) ---------- *)
-let flags_cache : (int, BinNums.coq_N) Hashtbl.t = Hashtbl.create 4096
 let racc_cache : (int, BinNums.coq_N) Hashtbl.t = Hashtbl.create 1024
 let md_oracles : Md.md_oracles = {
-  Md.char_flags = (fun cp ->
-      let k = int_of_n cp in
-      match Hashtbl.find_opt flags_cache k with
-      | Some v -> v
-      | None -> let v = n_of_int (int_of_string (ask ("Q FLAGS " ^ string_of_int k))) in Hashtbl.add flags_cache k v; v);
+  Md.char_flags = md_flags;
   Md.unaccent = (fun cp ->
       let k = int_of_n cp in
       match Hashtbl.find_opt racc_cache k with
